@@ -563,9 +563,22 @@ impl Pool
 									poisoned.push(index);
 									crash_records.push((index, desc, how));
 									slot.clear();
-									if poisoned.len() > 200
+									if poisoned.len() >= 25
 									{
-										*fatal.lock().unwrap() = Some(format!("more than 200 crashes in one job {job}"));
+										// Crash flood: give up on this job, keep the crashes as violations.
+										let mut r = JobResult::default();
+										for (index, desc, how) in crash_records.drain(..)
+										{
+											let case: Value = serde_json::from_str(&desc).unwrap_or(Value::String(desc.clone()));
+											let hint = case.get("sig_hint").and_then(|h| h.as_str()).map(|h| format!(":{h}")).unwrap_or_default();
+											let sig = format!("crash:{}{}", how, hint);
+											let size = case.get("size").and_then(|h| h.as_u64()).unwrap_or(desc.len() as u64);
+											r.outcome("crashed");
+											r.states += 1;
+											r.violation(&sig, size, || case.clone(), || format!("worker died ({how}) while running case #{index} of job {job}"));
+										}
+										r.cap_hit = Some(format!("job {job} abandoned after 25 worker crashes"));
+										merged.lock().unwrap().merge(r);
 										break;
 									}
 								}
